@@ -3,7 +3,7 @@ CONSTANTS
   MaxBlocks = 3
   MaxReqs = 2
   Templates = {"o23", "ret", "d3"}
-  PatchKinds = {"plain2", "loop", "fwd"}
+  PatchKinds = {"plain2", "loop", "fwd", "resume"}
   FnLayouts = {"none", "one"}
   EndSyms = {TRUE, FALSE}
   NoSyms = {TRUE, FALSE}
@@ -12,6 +12,8 @@ CONSTANTS
   CfiLayouts = {"none"}
   Isa = "x64"
   WithScopes = FALSE
+  Leads = {0, 2}
+  DropFnTables = {FALSE}
   ExtraData = {FALSE}
   Retargets = {FALSE}
   AlignOpts = {0}
